@@ -38,6 +38,7 @@ func (f fixedClock) Offset() time.Duration              { return 0 }
 type delivery struct {
 	blk   *wire.MsgBlock
 	watch bool // the candidate or a descendant: a rule error here is the candidate's verdict
+	hdr   bool // deliver only the header (ProcessBlockHeader)
 }
 
 type scenario struct {
@@ -87,7 +88,7 @@ func buildScenario(r recipe) *scenario {
 	bs := buildBase(v)
 	sc := &scenario{r: r, v: v, bs: bs}
 	for _, b := range bs.blocks {
-		sc.dels = append(sc.dels, delivery{b, false})
+		sc.dels = append(sc.dels, delivery{blk: b})
 	}
 	n := bs.n
 	if v.bip34Hash {
@@ -98,7 +99,7 @@ func buildScenario(r recipe) *scenario {
 	var s scen
 	var after []delivery
 	switch r.ctx {
-	case "tip":
+	case "tip", "hdr":
 		s = scen{n + 1, n, 1}
 	case "tmpl":
 		// CheckConnectBlockTemplate on the tip: nothing is stored, proof of work is not checked
@@ -109,7 +110,7 @@ func buildScenario(r recipe) *scenario {
 		m1 := plainBlock(main, 211, blockSpacing+7)
 		m2 := plainBlock(main, 212, blockSpacing)
 		s1 := plainBlock(parent, 213, blockSpacing+3)
-		sc.dels = append(sc.dels, delivery{m1, false}, delivery{m2, false}, delivery{s1, false})
+		sc.dels = append(sc.dels, delivery{blk: m1}, delivery{blk: m2}, delivery{blk: s1})
 		s = scen{n + 3, n + 2, 1}
 	case "orphan2":
 		// the candidate itself takes the orphan path: its parent X is a sibling of the tip that arrives later,
@@ -120,12 +121,12 @@ func buildScenario(r recipe) *scenario {
 		}
 		parent = side
 		x := plainBlock(parent, 400+caseNonce(r), blockSpacing+11)
-		after = append(after, delivery{x, true})
+		after = append(after, delivery{blk: x, watch: true})
 		s = scen{n + 1, n, 1}
 	case "orphan3":
 		// as orphan2, but the late parent X extends the tip: the candidate is connected by processOrphans directly
 		x := plainBlock(parent, 400+caseNonce(r), blockSpacing+11)
-		after = append(after, delivery{x, true})
+		after = append(after, delivery{blk: x, watch: true})
 		s = scen{n + 2, n + 1, 1}
 	case "fork":
 		// an unrelated side chain of equal length off block n-2, plus an unrelated orphan, come first
@@ -138,13 +139,13 @@ func buildScenario(r recipe) *scenario {
 		f3 := plainBlock(side, 103, blockSpacing)
 		f4 := plainBlock(side, 104, blockSpacing)
 		_ = f3
-		sc.dels = append(sc.dels, delivery{f1, false}, delivery{f2, false}, delivery{f4, false})
+		sc.dels = append(sc.dels, delivery{blk: f1}, delivery{blk: f2}, delivery{blk: f4})
 		s = scen{n + 1, n, 1}
 	case "side":
 		// the main chain gets one more block first; the candidate is its sibling and wins with a child
 		main := bs.p.clone()
 		m1 := plainBlock(main, 201, blockSpacing+7)
-		sc.dels = append(sc.dels, delivery{m1, false})
+		sc.dels = append(sc.dels, delivery{blk: m1})
 		s = scen{n + 2, n + 1, 1}
 	case "orphan":
 		s = scen{n + 2, n, 1}
@@ -168,12 +169,15 @@ func buildScenario(r recipe) *scenario {
 		return plainBlock(q, 301, blockSpacing)
 	}
 	switch r.ctx {
+	case "hdr":
+		// headers first: the header is offered before the block
+		sc.dels = append(sc.dels, delivery{blk: sc.cand, watch: true, hdr: true}, delivery{blk: sc.cand, watch: true})
 	case "tip", "fork", "tmpl", "orphan2", "orphan3":
-		sc.dels = append(sc.dels, delivery{sc.cand, true})
+		sc.dels = append(sc.dels, delivery{blk: sc.cand, watch: true})
 	case "side", "side2":
-		sc.dels = append(sc.dels, delivery{sc.cand, true}, delivery{child(), true})
+		sc.dels = append(sc.dels, delivery{blk: sc.cand, watch: true}, delivery{blk: child(), watch: true})
 	case "orphan":
-		sc.dels = append(sc.dels, delivery{child(), true}, delivery{sc.cand, true})
+		sc.dels = append(sc.dels, delivery{blk: child(), watch: true}, delivery{blk: sc.cand, watch: true})
 	}
 	sc.dels = append(sc.dels, after...)
 	return sc
@@ -379,6 +383,8 @@ func (sc *scenario) run() string {
 		var err error
 		if sc.r.ctx == "tmpl" {
 			err = chain.CheckConnectBlockTemplate(btcutil.NewBlock(d.blk))
+		} else if d.hdr {
+			_, err = chain.ProcessBlockHeader(&d.blk.Header, blockchain.BFNone, false)
 		} else {
 			_, _, err = chain.ProcessBlock(btcutil.NewBlock(d.blk), blockchain.BFNone)
 		}
@@ -452,7 +458,7 @@ func Lines(seed uint64, thorough bool) []string {
 }
 
 func generate(R *core.Rand, thorough bool, emit func(class string, nontrivial bool, line string)) {
-	ctxs := []string{"tip", "side", "orphan", "fork", "side2", "tmpl", "orphan2", "orphan3"}
+	ctxs := []string{"tip", "side", "orphan", "fork", "side2", "tmpl", "orphan2", "orphan3", "hdr"}
 	for vi, v := range variants {
 		for _, m := range mutators {
 			if !m.applies(v, v.baseLen()+1) {
